@@ -650,7 +650,35 @@ pub fn rule_witnesses() -> Vec<(Source, Vec<Value>)> {
     ]
   };
   let src = |lang: SupportLang, name: &str, text: String| Source { lang, name: format!("witness/{name}"), text };
+  // more than 64 siblings under one parent, statements of several kinds interleaved (sibling walks at
+  // every length; the shape-derived rules over the widest node apply to it)
+  let long_js: String = (0..72)
+    .map(|i| match (i * 5 + i / 7) % 6 {
+      0 => format!("let v{i} = w({i});\n"),
+      1 => format!("s{i}(v);\n"),
+      2 => format!("if (c{i}) f();\n"),
+      3 => format!("while (d{i}) g();\n"),
+      4 => format!("// n{i}\n"),
+      _ => format!("t{i};\n"),
+    })
+    .collect();
+  let long_py: String = (0..72)
+    .map(|i| match (i * 5 + i / 7) % 5 {
+      0 => format!("v{i} = w({i})\n"),
+      1 => format!("s{i}(v)\n"),
+      2 => format!("if c{i}: f()\n"),
+      3 => format!("# n{i}\n"),
+      _ => format!("del t{i}\n"),
+    })
+    .collect();
   let mut out = vec![
+    (src(SupportLang::JavaScript, "long-siblings.js", long_js), vec![
+      json!({"kind": "expression_statement", "follows": {"kind": "lexical_declaration", "stopBy": {"kind": "if_statement"}}}),
+      json!({"kind": "expression_statement", "precedes": {"kind": "while_statement", "stopBy": {"kind": "comment"}}}),
+    ]),
+    (src(SupportLang::Python, "long-siblings.py", long_py), vec![
+      json!({"kind": "expression_statement", "follows": {"kind": "if_statement", "stopBy": {"kind": "delete_statement"}}}),
+    ]),
     (src(SupportLang::JavaScript, "multi-empty.js", calls.to_string()), call_rules("call_expression")),
     (src(SupportLang::TypeScript, "multi-empty.ts", calls.to_string()), call_rules("call_expression")),
     (src(SupportLang::Python, "multi-empty.py", format!("{calls}[f(), g(1)]\n[f(2), g(2)]\n[f(), g()]\n")), {
@@ -770,7 +798,7 @@ pub fn rules_unit(ctx: &Ctx, rng: &mut Rng, o: &mut Out, share_vars: bool) {
     let grep = src.lang.ast_grep(&src.text);
     let root = grep.root();
     let all: Vec<N> = root.dfs().collect();
-    if all.len() > 400 {
+    if all.len() > 400 && !src.name.contains("long-siblings") {
       continue;
     }
     if let Some(v) = crate::treedump::contract_violation(&root) {
